@@ -174,6 +174,75 @@ def ast_constants():
     return out
 
 
+MUTATORS = {"append", "extend", "insert", "pop", "remove", "clear", "update", "add", "discard", "setdefault", "popitem", "sort", "reverse"}
+
+
+def write_footprint():
+    """Every write to an attribute of self/cls or to a module-level object outside __init__/register*:
+    assignments, augmented assignments, deletes, item stores and mutating method calls (AST of src/joserfc)."""
+    import joserfc
+    root = Path(joserfc.__file__).resolve().parent
+    out = []
+    for f in sorted(root.rglob("*.py")):
+        rel = str(f.relative_to(root))
+        tree = ast.parse(f.read_text())
+        module_names = set()
+        for n in tree.body:
+            if isinstance(n, ast.Assign):
+                for t in n.targets:
+                    if isinstance(t, ast.Name):
+                        module_names.add(t.id)
+            elif isinstance(n, ast.AnnAssign) and isinstance(n.target, ast.Name):
+                module_names.add(n.target.id)
+
+        def base_name(node):
+            while isinstance(node, (ast.Attribute, ast.Subscript)):
+                node = node.value
+            return node.id if isinstance(node, ast.Name) else None
+
+        def describe(node):
+            try:
+                return ast.unparse(node)
+            except Exception:  # noqa: BLE001
+                return "?"
+
+        def visit_func(fn, owner):
+            if fn.name == "__init__" or fn.name.startswith("register"):
+                return
+            local = {a.arg for a in fn.args.args + fn.args.kwonlyargs} | ({fn.args.vararg.arg} if fn.args.vararg else set()) | ({fn.args.kwarg.arg} if fn.args.kwarg else set())
+            for node in ast.walk(fn):
+                if isinstance(node, (ast.Assign, ast.AugAssign, ast.AnnAssign)):
+                    targets = node.targets if isinstance(node, ast.Assign) else [node.target]
+                    for t in targets:
+                        if isinstance(t, ast.Name):
+                            local.add(t.id)
+            for node in ast.walk(fn):
+                targets = []
+                kind = None
+                if isinstance(node, ast.Assign):
+                    targets, kind = node.targets, "assign"
+                elif isinstance(node, (ast.AugAssign, ast.AnnAssign)):
+                    targets, kind = [node.target], "assign"
+                elif isinstance(node, ast.Delete):
+                    targets, kind = node.targets, "del"
+                elif isinstance(node, ast.Call) and isinstance(node.func, ast.Attribute) and node.func.attr in MUTATORS:
+                    targets, kind = [node.func.value], "call." + node.func.attr
+                for t in targets:
+                    if not isinstance(t, (ast.Attribute, ast.Subscript)):
+                        continue
+                    b = base_name(t)
+                    if b in ("self", "cls") or (b in module_names and b not in local):
+                        out.append((rel, owner.rstrip("."), fn.name, kind, describe(t)))
+        for n in tree.body:
+            if isinstance(n, (ast.FunctionDef, ast.AsyncFunctionDef)):
+                visit_func(n, "")
+            elif isinstance(n, ast.ClassDef):
+                for m in n.body:
+                    if isinstance(m, (ast.FunctionDef, ast.AsyncFunctionDef)):
+                        visit_func(m, n.name + ".")
+    return sorted(set(out))
+
+
 def main():
     L = []
     J = {}
@@ -270,6 +339,10 @@ def main():
     L.append(f"def gcmKwIvBits : Nat := {int(consts.get('gcmKwIvBits', 0))}\n")
     L.append(f"def pbes2SaltLen : Nat := {int(consts.get('pbes2SaltLen', 0))}\n")
     J.update(consts)
+    fp = write_footprint()
+    L.append("def sharedWrites : List WriteSite := " + llist(
+        f"{{ file := {lstr(a)}, cls := {lstr(b)}, func := {lstr(c)}, kind := {lstr(d)}, target := {lstr(e)} }}" for a, b, c, d, e in fp) + "\n")
+    J["sharedWrites"] = [list(x) for x in fp]
     L.append("end Generated\n")
 
     text = "\n".join(L)
